@@ -3,18 +3,23 @@ import IofloModel.Drv.Proto
 /-!
 driver for the Share model (engine `share`).
 
-values:  `n` None · `i<int>` · `s<hex>` string · (output only) `a<hex>` class attribute object
+values:  `n` None · `i<int>` · `s<hex>` string · `f<nat>` float (bit pattern) · `t<int>_<int>…` tuple (`t.` empty)
+         · `r<id>` the caller's mutable object id (output: `r<id>[<int>_<int>…]` with its present contents)
+         · (output only) `a<hex>` class attribute object
 keys:    hex of UTF-8 (`-` = "")        pairs: `k=v;k=v` (`.` = empty list)
 
   reset                                  → ok
   setValue <v> | getValue | update <pairs> | change <pairs> | create <pairs> | stampNow
   setItem <k> <v> | getItem <k> | delItem <k> | contains <k> | get <k> | keys | items | values | len
   pop <k> | popitem | setdefault <k> <v> | clear | insert <int> <k> <v>
+  sift none | sift <k>,<k>… (`.` = []) | copy | reorder <pairs> | setData <pairs>
+  setTruth <v> | getTruth | changeUnit <pairs> | createUnit <pairs> | fetchUnit <k> | ctorUnit <pairs>
+  mutate <id> <int>
   push <v> | pull | gulp <v> | spew
   setClock <0|1> <int|n> | attach <0|1|n>
   region <D11e>                          → true|false  (for the operations since `reset`)
 
-reply:  `<out> | <stamp> | <keys> | <items> | <deck> | <len>`
+reply:  `<out> | <stamp> | <keys> | <items> | <deck> | <len> | <truth> | <unit items or ->`
 -/
 namespace Ioflo.Drv.Share
 open Ioflo.Proto Ioflo.Share
@@ -33,17 +38,31 @@ def encStr (s : Str) : String := bytesToHex ((String.ofList s).toUTF8.toList.map
 def decInt (s : String) : Option Int :=
   if s.startsWith "-" then (String.ofList (s.toList.drop 1)).toNat?.map (fun n => - (n : Int)) else s.toNat?.map (fun n => (n : Int))
 
+def rest1 (s : String) : String := String.ofList (s.toList.drop 1)
+
+def decInts (s : String) : Option (List Int) :=
+  if s == "." then some [] else (s.splitOn "_").mapM decInt
+
+def showInts (l : List Int) : String :=
+  if l.isEmpty then "." else "_".intercalate (l.map toString)
+
 def decVal (s : String) : Option Val :=
   if s == "n" then some .none
-  else if s.startsWith "i" then (decInt (String.ofList (s.toList.drop 1))).map .int
-  else if s.startsWith "s" then (decStr (String.ofList (s.toList.drop 1))).map .str
+  else if s.startsWith "i" then (decInt (rest1 s)).map .int
+  else if s.startsWith "s" then (decStr (rest1 s)).map .str
+  else if s.startsWith "f" then (rest1 s).toNat?.map .flt
+  else if s.startsWith "t" then (decInts (rest1 s)).map .tup
+  else if s.startsWith "r" then (rest1 s).toNat?.map .ref
   else none
 
-def showVal : Val → String
+def showValP (pool : List (List Int)) : Val → String
   | .none => "n"
   | .int i => "i" ++ toString i
   | .str s => "s" ++ encStr s
   | .attr k => "a" ++ encStr k
+  | .flt b => "f" ++ toString b
+  | .tup l => "t" ++ showInts l
+  | .ref id => "r" ++ toString id ++ "[" ++ showInts (pool.getD id []) ++ "]"
 
 def decPair (s : String) : Option (Str × Val) :=
   match s.splitOn "=" with
@@ -53,8 +72,8 @@ def decPair (s : String) : Option (Str × Val) :=
 def decPairs (s : String) : Option (List (Str × Val)) :=
   if s == "." then some [] else (s.splitOn ";").mapM decPair
 
-def showPairs (l : List (Str × Val)) : String :=
-  if l.isEmpty then "." else ";".intercalate (l.map (fun p => encStr p.1 ++ "=" ++ showVal p.2))
+def showPairs (pool : List (List Int)) (l : List (Str × Val)) : String :=
+  if l.isEmpty then "." else ";".intercalate (l.map (fun p => encStr p.1 ++ "=" ++ showValP pool p.2))
 
 def showStamp : Option Int → String
   | none => "n"
@@ -67,14 +86,14 @@ def showErr : Err → String
   | .indexError => "ERR IndexError"
   | .unmodelled => "UNMODELLED"
 
-def showOut : Out → String
+def showOut (pool : List (List Int)) : Out → String
   | .unit => "unit"
-  | .val v => "v:" ++ showVal v
+  | .val v => "v:" ++ showValP pool v
   | .bool b => if b then "b:True" else "b:False"
   | .nat n => "n:" ++ toString n
   | .strs l => "k:" ++ (if l.isEmpty then "." else ",".intercalate (l.map encStr))
-  | .pairs l => "p:" ++ showPairs l
-  | .vals l => "l:" ++ (if l.isEmpty then "." else ",".intercalate (l.map showVal))
+  | .pairs l => "p:" ++ showPairs pool l
+  | .vals l => "l:" ++ (if l.isEmpty then "." else ",".intercalate (l.map (showValP pool)))
   | .stamp t => "t:" ++ showStamp t
   | .err e => showErr e
 
@@ -82,10 +101,16 @@ def observe (w : World) : String :=
   showStamp w.stamp ++ " | " ++
   (if w.data.keys.isEmpty then "." else ",".intercalate (w.data.keys.map encStr)) ++ " | " ++
   (match items w.data with
-   | .ok l => showPairs l
+   | .ok l => showPairs w.pool l
    | .error e => showErr e) ++ " | " ++
-  (if w.deck.isEmpty then "." else ",".intercalate (w.deck.map showVal)) ++ " | " ++
-  toString w.data.raw.length
+  (if w.deck.isEmpty then "." else ",".intercalate (w.deck.map (showValP w.pool))) ++ " | " ++
+  toString w.data.raw.length ++ " | " ++ showValP w.pool w.truth ++ " | " ++
+  (match w.unit with
+   | none => "-"
+   | some u =>
+     match items u with
+     | .ok l => showPairs w.pool l
+     | .error e => showErr e)
 
 def decOptNat (s : String) : Option (Option Nat) :=
   if s == "n" then some none else s.toNat?.map some
@@ -113,6 +138,19 @@ def parseOp : List String → Option Op
   | ["popitem"] => some .popitem
   | ["setdefault", k, v] => do pure (.setdefault (← decStr k) (← decVal v))
   | ["clear"] => some .clear
+  | ["sift", "none"] => some (.sift none)
+  | ["sift", ks] => do
+    if ks == "." then pure (.sift (some [])) else pure (.sift (some (← (ks.splitOn ",").mapM decStr)))
+  | ["copy"] => some .copy
+  | ["reorder", ps] => do pure (.reorder (← decPairs ps))
+  | ["setData", ps] => do pure (.setData (← decPairs ps))
+  | ["setTruth", v] => do pure (.setTruth (← decVal v))
+  | ["getTruth"] => some .getTruth
+  | ["changeUnit", ps] => do pure (.changeUnit (← decPairs ps))
+  | ["createUnit", ps] => do pure (.createUnit (← decPairs ps))
+  | ["fetchUnit", k] => do pure (.fetchUnit (← decStr k))
+  | ["ctorUnit", ps] => do pure (.ctorUnit (← decPairs ps))
+  | ["mutate", i, n] => do pure (.mutate (← i.toNat?) (← decInt n))
   | ["insert", i, k, v] => do pure (.insert (← decInt i) (← decStr k) (← decVal v))
   | ["push", v] => do pure (.push (← decVal v))
   | ["pull"] => some .pull
@@ -131,7 +169,7 @@ def step (s : St) (line : String) : St × String :=
     | none => (s, "bad-op")
     | some op =>
       let r := Ioflo.Share.step s.w op
-      ({ w := r.1, ops := op :: s.ops }, showOut r.2 ++ " | " ++ observe r.1)
+      ({ w := r.1, ops := op :: s.ops }, showOut r.1.pool r.2 ++ " | " ++ observe r.1)
 
 end Ioflo.Drv.Share
 
